@@ -965,6 +965,13 @@ class QasmProcessor:
                 cbit_reg, classical_control_value = command[2].split("==")
                 cbit_inds = self.cbit_regs[cbit_reg]
                 classical_control_value = int(classical_control_value)
+                if classical_control_value >= 2 ** len(cbit_inds):
+                    # the register never holds this value: the statement
+                    # is checked, but it never acts
+                    self._gate_add(
+                        QubitCircuit(qc.N), command[4:], custom_gates
+                    )
+                    continue
                 self._gate_add(
                     qc,
                     command[4:],
